@@ -3,8 +3,10 @@ from ..runner import Registry
 from .. import spec as SP
 
 REG = Registry("C10")
+NNF = ["conditional.NNControlGaussianConditional.set_y", "conditional.NNControlGaussianConditional.set_control_variable",
+       "conditional.NNControlGaussianConditional.get_M_b", "conditional.ConditionalGaussianPDF.set_y"]
 FUNCS = ["conditional.{cls}.set_y", "factor.ConjugateFactor.__post_init__", "factor.ConjugateFactor.evaluate_ln"]
-CLS = {"full": "ConditionalGaussianPDF", "diag": "ConditionalGaussianDiagPDF",
+CLS = {"full": "ConditionalGaussianPDF", "diag": "ConditionalGaussianDiagPDF", "nn": "NNControlGaussianConditional",
        "identity": "ConditionalIdentityGaussianPDF", "identity-diag": "ConditionalIdentityDiagGaussianPDF"}
 
 
@@ -23,12 +25,13 @@ def _spec_ln_lik(w, par, y, x, Dy, paired):
 def _mk(kind, paired):
     def ob(w):
         Dy = "Dy"
-        Dx = "Dx" if kind in ("full", "diag") else "Dy"
+        Dx = "Dx" if kind in ("full", "diag", "nn") else "Dy"
         R = "N" if paired else 1
-        cond, par = SP.gen_cond(w, "c", R, Dy, Dx, kind)
+        h = SP.gen_cond_handle(w, kind, "c", R, Dy, Dx)
+        cond, par = h.obj, h.par
         y = w.arr("y", "N", Dy)
         x = w.arr("x", "Nx", Dx)
-        f = cond.set_y(y)                                     # REAL
+        f = h.call("set_y", y)                                # REAL
         # shape clause: a well-formed batch with one component per observation
         n = w.size("N")
         w.equal("batch-shape/Lambda", f.Lambda, _bcast(w, f.Lambda, n))
@@ -52,8 +55,8 @@ def _bcast(w, a, n):
     return a
 
 
-for _kind in ("full", "diag", "identity", "identity-diag"):
+for _kind in ("full", "diag", "identity", "identity-diag", "nn"):
     for _paired in (False, True):
         _id = f"{CLS[_kind]}.set_y/{'R=N' if _paired else 'R=1'}"
-        REG.ob(_id, sorts=["N", "Nx", "Dx", "Dy"] if _kind in ("full", "diag") else ["N", "Nx", "Dy"],
-               funcs=[f.format(cls=CLS[_kind]) for f in FUNCS])(_mk(_kind, _paired))
+        REG.ob(_id, sorts=(["N", "Nx", "Dx", "Dy"] if _kind in ("full", "diag", "nn") else ["N", "Nx", "Dy"]) + (["Du"] if _kind == "nn" else []),
+               funcs=[f.format(cls=CLS[_kind]) for f in FUNCS] + (NNF if _kind == "nn" else []))(_mk(_kind, _paired))
